@@ -197,7 +197,12 @@ def c07(tier):
     if tier == "thorough":
         for mut in (0, 1, 2):
             units += shards("VerifC07Auto", 5, weight=8, n=2, mut=mut, multi=1)
-    b = dict(MACH_BOUNDS, states="2 user states + Exception with every schema (all Require/Add/Remove/Auto bits symbolic; thorough also with Multi); 3 user states for 8 curated schemas")
+    # 4 user states, two or three of them Auto and no relations, from the empty machine (Add of every called set): several called
+    # Auto states with several active states, so state-state vetoes can arrive in any order (bit 10*i+9 = Auto of state i)
+    for sc in ((1 << 29) | (1 << 39), (1 << 19) | (1 << 29) | (1 << 39)):
+        units.append(U(MACH, "VerifC07Auto", weight=10, n=4, schema=sc, mut=0, emptypre=1))
+    b = dict(MACH_BOUNDS, states="2 user states + Exception with every schema (all Require/Add/Remove/Auto bits symbolic; thorough also with Multi); 3 user states for 8 curated schemas; 4 user states for 2 relation-free schemas "
+             "with 2 / 3 Auto states (Add of every called set from the empty machine, every veto table)")
     return {"units": units, "bounds": b, "outside": MACH_OUT + ["health-check mutations", "AnyEnter veto (pinned to no veto)", "symbolic 3-state schemas: the "
             "'rejected Auto state is justified' oracle is not settled there (an auto mutation is canceled as a whole by a state-state handler veto of another called "
             "Auto state; whether that is justified 'by relations' depends on a reading of the property) - excluded rather than alarmed on"], "assumptions": MACH_ASSUME}
